@@ -173,6 +173,7 @@ def main():
   t0 = time.time()
   drq = Q.OpQuantizationConfig(weight_tensor_config=Q.TensorQuantizationConfig(8, True, Q.QuantGranularity.CHANNELWISE), compute_precision=Q.ComputePrecision.INTEGER)
   drq4 = Q.OpQuantizationConfig(weight_tensor_config=Q.TensorQuantizationConfig(4, True, Q.QuantGranularity.CHANNELWISE), compute_precision=Q.ComputePrecision.INTEGER)
+  nlayout = 0
   for name, model in synthetic_layouts(args.tier):
     def bq(model=model):
       q = quantizer.Quantizer(model)
@@ -189,7 +190,8 @@ def main():
     # the same float model handed over in EXTERNAL-buffer form (the only form a model beyond 2 GB can have): made by the library
     # itself - a recipe that selects nothing, written through the large-model path - and quantized through the large path again;
     # the reference is the ordinary path on the ordinary form
-    if len(cases) % 4 == 1:
+    nlayout += 1
+    if nlayout % 4 == 1:
       def ext_form(model=model):
         q0 = quantizer.Quantizer(model)
         q0.update_quantization_recipe("nomatch_zz", Q.TFLOperationName.FULLY_CONNECTED, None, "no_quantize")
